@@ -319,7 +319,12 @@ skipSpace:
 				case '\n', runeEOF:
 					break runeLoop
 				case escNewl:
+					// A comment cannot be continued on the next line:
+					// the backslash is part of its text,
+					// and the newline ends it like any other.
 					p.litBs = append(p.litBs, '\\', '\n')
+					p.col += int64(p.w) - 1 // the column of the newline itself
+					p.r, p.w = '\n', 1
 					break runeLoop
 				case '`':
 					if p.backquoteEnd() {
